@@ -224,6 +224,8 @@ let () =
         let e = match args with
           | ["rsend"; v] -> Some (M.RSend (nat v))
           | ["rclose"] -> Some M.RClose
+          | ["rstore"] -> Some M.RStore
+          | ["rload"] -> Some M.RLoad
           | ["rrecv"; "1"; v] -> Some (M.RRecv (true, nat v))
           | ["rrecv"; "0"; _] -> Some (M.RRecv (false, !st.M.rres))   (* the value read back is not a channel event *)
           | _ -> None in
@@ -232,7 +234,7 @@ let () =
         | Some e ->
           (match M.rrun_idx !st [e] M.O with
            | M.Inr s' -> st := s'
-           | M.Inl _ -> bad := true; mismatch l s (Printf.sprintf "slice resp %s: channel operation not enabled in the model (second send, send after close, double close, receive of a value that was not sent)" !tag))
+           | M.Inl _ -> bad := true; mismatch l s (Printf.sprintf "slice resp %s: operation not enabled in the model (second send, send after close, double close, receive of a value that was not sent, the stored value written after the send or not before it)" !tag))
       end) evs;
     rbuf := [])
 
@@ -336,3 +338,44 @@ let () =
           let (l, s, _) = List.nth evs k in
           mismatch l s (Printf.sprintf "slice lock %s: event %d breaks the lock discipline (a write without the lock held exclusively, a read without it held)" !tag k)));
     lkbuf := [])
+
+(* ---------------- barrier wake-up (coq/SliceBarrier.v) ---------------- *)
+let bwbuf : (int * string * string list) list ref = ref []
+
+let okind_of = function "e" -> Some M.OEval | "n" -> Some M.ONotify | "b" -> Some M.OBcast | "-" -> Some M.ONone | _ -> None
+
+let bev_of (a : string list) : M.wbev option =
+  match a with
+  | ["binput"; t; st; cur; len; k] ->
+    (match okind_of k with Some k -> Some (M.WInput (nat t, nat st, nat cur, nat len, k)) | None -> None)
+  | ["brwnob"; t] -> Some (M.WRWNoBcast (nat t))
+  | ["bbcast"; t] -> Some (M.WBroadcast (nat t))
+  | ["bnotify"; t] -> Some (M.WNotify (nat t))
+  | ["brecv"; t] -> Some (M.WRecv (nat t))
+  | ["bclose"; t; k] -> (match okind_of k with Some k -> Some (M.WClose (nat t, k)) | None -> None)
+  | ["bopen"] -> Some M.WOpen
+  | _ -> None
+
+let () =
+  register "BARRIER" (fun _ _ a -> (match a with t :: _ -> tag := t | _ -> ()); bwbuf := []);
+  register "bw" (fun ln line a -> bwbuf := (ln, line, a) :: !bwbuf);
+  register "ENDBARRIER" (fun ln line a ->
+    let evs = List.rev !bwbuf in
+    incr checked;
+    let st = ref (M.wbinit M.O) in
+    let bad = ref false in
+    List.iter (fun (l, s, args) ->
+      if not !bad then
+        match bev_of args with
+        | None -> bad := true; mismatch l s ("slice barrier " ^ !tag ^ ": unknown record")
+        | Some e ->
+          (match M.wbstep !st e with
+           | Some s' -> st := s'
+           | None ->
+             bad := true;
+             mismatch l s (Printf.sprintf "slice barrier %s: step is not enabled in the model (a step that ends the waiters' wait with nobody going on to broadcast / notify, releaseWaiters walking away from a new obligation, a buffered signal dropped by a thread that owes nothing, ...)" !tag))) evs;
+    (match a with
+     | ["1"] when not !bad ->
+       if !st.M.bstale then mismatch ln line (Printf.sprintf "slice barrier %s: at rest the waiters' condition has turned false and nobody has broadcast since" !tag)
+     | _ -> ());
+    bwbuf := [])
